@@ -204,7 +204,7 @@ PROPS = {
     "C01": {
         "rules": [r_token.access, r_token.tokiter, r_token.dispatch, r_cand.cand, r_cand.unkfall, r_viterbi.traceback,
                   r_reset.run_tokens, r_panic.run_narrow_dict, r_cand.unkcover, r_panic.run_tok,
-                  r_misc.spaceopt],
+                  r_misc.spaceopt, r_char.run_key, kind_scope("dictionary::unknown", "token::")],
         "explanation": "ACCESS: every Token accessor is a projection of the one stored (end, node) "
                        "pair and the sentence's offset table (ranges, surface, ids, costs, "
                        "feature); DISPATCH: each lexicon type is looked up in its own component "
@@ -244,7 +244,8 @@ PROPS = {
     },
     "C03": {
         "rules": [r_cand.cand, r_cand.unkfall, r_cand.unkgroup, r_cand.unkspans, r_cand.charrange,
-                  r_reset.run_tokens, r_misc.optkeep_tokenizer, r_char.run, r_map.run_user],
+                  r_reset.run_tokens, r_misc.optkeep_tokenizer, r_char.run, r_map.run_user,
+                  kind_scope("dictionary::unknown", "tokenizer")],
         "explanation": "CAND: at every processed position both lexicons are searched over the "
                        "same remaining text, every match is inserted and sets has_matched, and "
                        "gen_unk_words is called exactly once with that flag, the word start and "
